@@ -3,7 +3,7 @@
      T=<res> ; TT=<res> ; CK=<chk> ; CK0=<chk>
    res = OK <base>@<ver>[*] ..  |  ERR:<m><a><f> (error-class bits)  |  MULTI  |  FUEL
    chk = ACCEPT | REJECT | ERR:<m><a><f> | MULTI | FUEL
-   Standard-library imports (first path element without a dot) are dropped here. *)
+   The set of path elements without a dot (standard-library roots) is passed as u_std. *)
 open C17_model
 
 let rec pos_of_int i = if i = 1 then XH else if i land 1 = 0 then XO (pos_of_int (i lsr 1)) else XI (pos_of_int (i lsr 1))
@@ -76,6 +76,7 @@ let string_of_tres = function
   | TErr (m, a, f) -> "ERR:" ^ bits m a f
   | TMulti -> "MULTI"
   | TFuel -> "FUEL"
+  | TIFuel -> "IFUEL"
 let string_of_cres = function
   | CAccept -> "ACCEPT" | CReject -> "REJECT"
   | CErr (m, a, f) -> "ERR:" ^ bits m a f
@@ -91,15 +92,15 @@ let handle line =
       | _ -> failwith "bad head" in
     let deps0 = List.map dep_of_string (words s1) in
     let mdirs = List.map path_of_string (words s2) in
-    let mimps = List.map import_of_string (List.filter (fun w -> not (is_std w)) (words s3)) in
+    let mimps = List.map import_of_string (words s3) in
     let mods = List.map node_of_string (words s4) in
     let deps = List.map (fun w -> let a, b = cut '>' w in (node_of_string a, dep_of_string b)) (words s5) in
     let pkgs = List.map (fun w -> let a, d = cut_last ':' w in (node_of_string a, path_of_string d)) (words s6) in
-    let imps = List.filter_map (fun w ->
+    let imps = List.map (fun w ->
         let a, i = cut '>' w in
-        if is_std i then None else
-        let m, d = cut_last ':' a in Some ((node_of_string m, path_of_string d), import_of_string i)) (words s7) in
-    let u = c17_mkU mods deps pkgs imps in
+        let m, d = cut_last ':' a in ((node_of_string m, path_of_string d), import_of_string i)) (words s7) in
+    let std = Hashtbl.fold (fun s i acc -> if String.contains s '.' then acc else n_of_int i :: acc) tbl [] in
+    let u = c17_mkU mods deps pkgs imps std in
     let mm = c17_mkM (fst main) (snd main) mdirs mimps in
     let t = c17_tidy fuel ifuel u mm deps0 in
     let tt, ck = match t with
